@@ -1234,7 +1234,8 @@ def replay(pid, rec, path):
         # Generic replay: the workloads are functions of (seed, tier), so the recorded case is re-created by
         # re-running the stage it came from with the recorded seed, and looking for the same signature.
         stage_fn = {"c05": None, "c08": c08_stage, "c12": c12_stage, "c12-bench": c12_stage, "c14-movetime": c14_stage,
-                    "c14-long": c14_stage, "c17-ep": c17_stage, "c17": c17_stage, "c13": c13_stage}.get(check)
+                    "c14-long": c14_stage, "c14-refused": c14_stage, "c17-ep": c17_stage, "c17": c17_stage, "c13": c13_stage,
+                    "c11": c11_stage}.get(check)
         if stage_fn is None:
             print(f"no replay procedure for process-level check {check}")
             return 2
